@@ -113,3 +113,12 @@ claim("C06", EXPRJ,
       "against Expr.tla; enumerated small trees under all valuations + random / rule-shaped trees at widths 1..64, both byte orders.",
       "TLC; /usr/bin/z3 as evaluator of SMT-LIB2 text; unsupported operators (NotImplementedError) are legal",
       "DESIGN.md 5/C06", "ExprJudge")
+
+claim("C07", EXPRJ,
+      "As C05 for TranslatorPython (the emitted source is evaluated by the Python interpreter with integer identifiers and a "
+      "memory() callback; the value is judged by TLC against Expr.tla; a non-integer result, an exception other than "
+      "NotImplementedError or an evaluation that does not finish is a violation) and TranslatorMiasm (the emitted construction "
+      "source is evaluated and must yield the identical interned object, incl. names with quotes/backslashes/newlines/non-ASCII "
+      "and integers of widths 1..256).",
+      "TLC; CPython as evaluator of the emitted source; expressions with locations are excluded from the construction-source part",
+      "DESIGN.md 5/C07", "ExprJudge")
